@@ -353,6 +353,7 @@ class Ctx:
         with open(os.path.join(VERIF, "evidence", self.pid + ".json"), "w") as f:
             json.dump(ev, f, indent=1, default=str)
         for v in self.violations:
+            print("  what fails: " + " ".join(str(v["what"]).split())[:600], flush=True)
             print("VIOLATION property=%s replay=%s%s" % (self.pid, v["replay"],
                                                         " no-failing-input-found" if v["no_input"] else ""), flush=True)
         self.log("obligations %d/%d, evaluations %s, violations %d, known findings seen %d"
